@@ -1779,6 +1779,10 @@ val enc : ty list -> nat -> ty -> value -> bld -> bld res
 
 val dec : ty list -> nat -> ty -> slc -> (value * slc) res
 
+val ty_depth : ty -> nat
+
+val fuel_of : ty list -> ty -> nat
+
 val put_list : ty list -> nat -> ty -> value list -> bld -> bld res
 
 val enc_stack : ty list -> nat -> ty -> value list -> bld -> bld res
@@ -1786,6 +1790,34 @@ val enc_stack : ty list -> nat -> ty -> value list -> bld -> bld res
 val get_cell : ty list -> nat -> ty -> ctree -> n -> value list res
 
 val dec_stack : ty list -> nat -> ty -> slc -> value list res
+
+type xty =
+| XBase of ty
+| XSnake
+| XLenBytes of nat
+| XMaybe of xty
+| XEither of xty * xty
+| XEitherRef of xty
+| XRef of xty
+| XMaybeRef of xty
+| XStruct of xty list
+| XSum of ((nat * n) * xty) list
+
+val snake_chain : nat -> bits -> ctree
+
+val snake_read : ctree -> bits
+
+val snake_spec : nat -> bits -> bits * ctree list
+
+val put_snake : bits -> bld -> bld res
+
+val get_snake : slc -> (value * slc) res
+
+val xbase_fuel : ty -> nat
+
+val xenc : nat -> xty -> value -> bld -> bld res
+
+val xdec : nat -> xty -> slc -> (value * slc) res
 
 val small1 : n -> nat option
 
@@ -1815,11 +1847,17 @@ val bits_eqb1 : bits -> bits -> bool
 
 val cell_eqb_sx : ctree -> ctree -> bool
 
-val run_rt : sx -> sx
+val run_rt_base : sx -> sx
 
 val run_dec : sx -> sx
 
 val run_cur : sx -> sx
+
+val xty_of : sx -> xty option
+
+val run_xrt : sx -> sx
+
+val run_rt : sx -> sx
 
 val run_stack : sx -> sx
 
@@ -3191,7 +3229,7 @@ val enter : xtree -> bool -> xs option res
 
 val xunary : nat -> bits -> bits res
 
-val xdec : ty list -> nat -> ty -> xs -> n -> (xs * n) res
+val xdec0 : ty list -> nat -> ty -> xs -> n -> (xs * n) res
 
 val xunmarshal : ty list -> nat -> ty -> xtree -> (xs * n) res
 
